@@ -405,6 +405,7 @@ namespace c10
   struct RefineOpts
   {
     bool coords = true;        // AdaptMode::none: all new vertices are midpoints / centres
+    double coord_ulps = 16;    // tolerance of the centre oracle in units of eps * max|coordinate| (dual adaption re-averages: 64)
     bool geometry = true;      // volume + orientation oracles
     std::vector<char> moved;   // chart mode: fine vertices that a chart may have moved (excluded from the coordinate oracle)
     std::set<std::string> skip_parts;     // part keys whose coarse version was not a valid input
@@ -460,7 +461,7 @@ namespace c10
             continue;
           }
           LD sum = 0, mx = 0; for(int a = 0; a < nv; ++a) { LD x = (LD)c.vtx[cv[a] * Idx(dim) + Idx(k)]; sum += x; mx = std::max(mx, std::fabs(x)); }
-          const LD ref = sum / LD(nv), tol = 16 * 2.3e-16L * mx + 1e-300L;
+          const LD ref = sum / LD(nv), tol = LD(o.coord_ulps) * 2.3e-16L * mx + 1e-300L;
           if(!(std::fabs((LD)got - ref) <= tol) && !rep_mid)
           { rep_mid = true; r.bad(op, "new-vertex-not-centre", vh::J().kv("vertex", (unsigned long)v).kv("parent_dim", int(g.s)).kv("parent", (unsigned long)g.p).kv("coord", k).kv("got", got).kv("expected", ref).kv("tol", tol)); }
         }
